@@ -88,3 +88,34 @@ MUTANTS += [
    '            ret, diff = verify_path(path, verify_entry)\n            if not ret:',
    "            ret, diff = verify_path(path, verify_entry)\n            if not ret and diff[0][0] in ('__size__', '__exists__', '__type__'):")]),
 ]
+
+MUTANTS += [
+ # ---- C03
+ dict(id='c03-no-stack-pop', props=['C03'], edits=[(RL,
+   "            while not path_starts_with(relpath, manifest_stack[-1][1]):\n                manifest_stack.pop()",
+   "            pass")]),
+ dict(id='c03-new-entries-to-stack0', props=['C03'], edits=[(RL,
+   "                mpath, mdirpath, m = manifest_stack[-1]\n                for fe in new_entries:",
+   "                mpath, mdirpath, m = manifest_stack[0]\n                for fe in new_entries:")]),
+ dict(id='c03-keep-vanished', props=['C03'], edits=[(RL,
+   "            self.loaded_manifests[mpath].entries.remove(fe)\n            self.updated_manifests.add(mpath)",
+   "            pass")]),
+ dict(id='c03-existing-keep-hashes', props=['C03'], edits=[(RL,
+   "                changed = update_entry_for_path(\n                    os.path.join(dirpath, f),\n                    fe,\n                    hashes=hashes,",
+   "                changed = update_entry_for_path(\n                    os.path.join(dirpath, f),\n                    fe,\n                    hashes=(hashes if not fe.checksums else None),")]),
+ dict(id='c03-save-parents-first', props=['C03'], edits=[(RL,
+   "            return sorted(manifests,\n                          key=lambda kdv: len(kdv[1]),\n                          reverse=True)",
+   "            return sorted(manifests,\n                          key=lambda kdv: len(kdv[1]),\n                          reverse=False)")]),
+ dict(id='c03-same-dir-order-lost', props=['C03'], edits=[(RL,
+   "                                       levels.get(kdv[0], 0)),",
+   "                                       0),")]),
+ dict(id='c03-dedup-keeps-dup-across-manifests', props=['C03'], edits=[(RL,
+   "                        # and drop the duplicate\n                        entries_to_remove.append(e)",
+   "                        # and drop the duplicate\n                        if mpath == out[fullpath][0]:\n                            entries_to_remove.append(e)")]),
+ dict(id='c03-changed-not-queued', props=['C03'], edits=[(RL,
+   "                if changed and mpath is not None:\n                    self.updated_manifests.add(mpath)",
+   "                if changed and mpath is not None and mpath.count('/') < 2:\n                    self.updated_manifests.add(mpath)")]),
+ dict(id='c03-size-from-stat', props=['C03'], edits=[(VF,
+   "        if e.size != size or e.checksums != checksums:\n            e.size = size",
+   "        if e.size != size or e.checksums != checksums:\n            e.size = e.size if e.size else size")]),
+]
